@@ -49,7 +49,7 @@ def ev_ct(a, w, o=1, **kw):
     return e
 
 
-def gen_signal(rng, n, t0=0, tmax=12, S=1, lo=-4, hi=4, end=None):
+def gen_signal(rng, n, t0=0, tmax=12, S=1, lo=-4, hi=4, end=None, stair=False):
     """n samples at distinct integer times starting at t0 (last at `end` if given)"""
     n = max(1, n)
     if end is not None:
@@ -57,7 +57,7 @@ def gen_signal(rng, n, t0=0, tmax=12, S=1, lo=-4, hi=4, end=None):
         ts = [t0] + inner + ([end] if end > t0 else [])
     else:
         ts = [t0] + sorted(rng.sample(range(t0 + 1, tmax + 1), min(n - 1, tmax - t0)))
-    mode = rng.random()
+    mode = rng.random() if not stair else rng.uniform(0.6, 1.0)
     if mode < 0.6:
         vals = [rng.randint(lo * S, hi * S) for _ in ts]
     else:
